@@ -39,24 +39,32 @@ __CPROVER_ensures(g_rotate_calls == OLD(g_rotate_calls) + 1 && g_rotate_ts == ts
 __CPROVER_ensures(g_rotation_refused ? (self->_file_size == OLD(self->_file_size) && self->_open_file_timestamp == OLD(self->_open_file_timestamp)) : (self->_file_size == 0 && self->_open_file_timestamp == ts));
 uint64_t RS_calc_tp(uint64_t rotation_timestamp_ns, Cfg const* config_p)''' + CALC_CONTRACT.replace('/*@', '/*') + r''';
 #define RS__calculate_rotation_tp(self, ts, cfg) RS_calc_tp(ts, &(cfg))
+/* _calculate_initial_rotation_tp (unit RS.initial_tp): daily - the next occurrence of the configured HH:MM strictly after the instant */
+size_t g_initial_calls; uint64_t g_initial_arg, g_initial_ret;
+uint64_t RS_initial_tp_of(uint64_t ts, Cfg const* c)
+__CPROVER_requires(c->freq == RF_Daily)
+__CPROVER_assigns(g_initial_calls, g_initial_arg, g_initial_ret)
+__CPROVER_ensures(RET > ts && RET - ts <= (uint64_t)NS_DAY + (uint64_t)NS_HOUR && g_initial_calls == OLD(g_initial_calls) + 1 && g_initial_arg == ts && g_initial_ret == RET);
+#define RS__calculate_initial_rotation_tp(self, ts, cfg) RS_initial_tp_of(ts, &(cfg))
 '''
 DAYS = ' || '.join('self->_next_rotation_time == OLD(self->_next_rotation_time) + %dULL * NS_DAY' % k for k in range(1, 9))
 time_rotation = dict(
     name='RS.time_rotation', primary='C15', props={'C15'}, kind='L',
     desc='RotatingSink::_time_rotation: rotate before the write iff the statement is at or after the scheduled point; the next point is the scheduled point advanced by whole periods past the statement',
-    structs=[], prelude=TR_PRELUDE, enforce='RS__time_rotation', replace=['RS__rotate_files', 'RS_calc_tp'],
+    structs=[], prelude=TR_PRELUDE, enforce='RS__time_rotation', replace=['RS__rotate_files', 'RS_calc_tp', 'RS_initial_tp_of'],
     funcs=[dict(src=dict(header=H, cls='RotatingSink', name='_time_rotation'), src_params=['record_timestamp_ns'], cfun='RS__time_rotation',
                 sig='bool RS__time_rotation(RS* self, uint64_t record_timestamp_ns)', ret_default='false', cls_c='RS', member_fields=['_next_rotation_time', '_config'],
-                siblings=['_rotate_files', '_calculate_rotation_tp'], exceptions=True, may_throw=['RS_calc_tp', 'RS__calculate_rotation_tp'],
+                siblings=['_rotate_files', '_calculate_rotation_tp', '_calculate_initial_rotation_tp'], exceptions=True, may_throw=['RS_calc_tp', 'RS__calculate_rotation_tp'], methods=CFG_METHODS, pre_rules=CHRONO,
                 contract=r'''
 __CPROVER_requires(__CPROVER_is_fresh(self, sizeof(*self)) && self->_config.freq != RF_Disabled && self->_config.freq <= RF_Minutely && self->_config.interval >= 1 && self->_config.interval <= INTERVAL_MAX && g_exc == 0)
 __CPROVER_requires(record_timestamp_ns < (1ULL << 62) && self->_next_rotation_time < (1ULL << 62))
 __CPROVER_requires(record_timestamp_ns < self->_next_rotation_time || record_timestamp_ns - self->_next_rotation_time < GAP_PERIODS * PERIOD(&self->_config))
-__CPROVER_assigns(self->_next_rotation_time, self->_file_size, self->_open_file_timestamp, g_rotate_calls, g_rotate_ts, g_clock, g_t_rotate, g_rotation_refused, g_exc)
+__CPROVER_requires(g_initial_calls == 0)
+__CPROVER_assigns(self->_next_rotation_time, self->_file_size, self->_open_file_timestamp, g_rotate_calls, g_rotate_ts, g_clock, g_t_rotate, g_rotation_refused, g_exc, g_initial_calls, g_initial_arg, g_initial_ret)
 __CPROVER_ensures(record_timestamp_ns >= OLD(self->_next_rotation_time) ==> (RET && g_exc == 0 && g_rotate_calls == OLD(g_rotate_calls) + 1 && g_rotate_ts == record_timestamp_ns && self->_next_rotation_time > record_timestamp_ns)) /*@ C15 "a statement at or after the scheduled rotation point rotates the file before it is written, and the next point lies after it" */
 __CPROVER_ensures(record_timestamp_ns < OLD(self->_next_rotation_time) ==> (!RET && g_rotate_calls == OLD(g_rotate_calls) && self->_next_rotation_time == OLD(self->_next_rotation_time))) /*@ C15 "statements with no rotation point between them share a file (no time rotation before the point)" */
-__CPROVER_ensures(RET ==> self->_next_rotation_time - record_timestamp_ns <= PERIOD(&self->_config)) /*@ C15 "the next rotation point is at most one period after the statement" */
-__CPROVER_ensures((RET && self->_config.freq == RF_Daily) ==> (''' + DAYS + r''')) /*@ C15 "daily at HH:MM: every rotation point is a whole number of days after the previous one (the schedule does not drift with the statements)" */
+__CPROVER_ensures(RET ==> self->_next_rotation_time - record_timestamp_ns <= PERIOD(&self->_config) + (self->_config.freq == RF_Daily ? (uint64_t)NS_HOUR : 0)) /*@ C15 "the next rotation point is at most one period after the statement (a calendar day can have 25 hours)" */
+__CPROVER_ensures((RET && self->_config.freq == RF_Daily) ==> (g_initial_calls == 1 && g_initial_arg == record_timestamp_ns && self->_next_rotation_time == g_initial_ret)) /*@ C15 "daily at HH:MM: the next rotation point is the next occurrence of HH:MM in the sink's time zone after the statement, found by calendar arithmetic (it neither drifts with the statements nor moves at a daylight saving switch)" */
 ''')],
     harness='  RS* s; uint64_t t; RS__time_rotation(s, t);',
     variants=[dict(name='main', defs=['INTERVAL_MAX=16', 'GAP_PERIODS=8ULL']), dict(name='wide', tier='thorough', defs=['INTERVAL_MAX=64', 'GAP_PERIODS=8ULL'])],
@@ -171,8 +179,9 @@ uint64_t SEC_TO_NS(uint64_t secs) __CPROVER_assigns(g_ret_s, g_ret_ns) __CPROVER
 time_t DIV_1E9(time_t x) __CPROVER_requires(x >= 0) __CPROVER_assigns(g_now)
 __CPROVER_ensures(RET >= 0 && RET < (1LL << 33) && RET * 1000000000LL <= x && x - RET * 1000000000LL < 1000000000LL && g_now == RET);
 uint32_t BD_second_of_day(time_t t) __CPROVER_assigns(g_day_base) __CPROVER_requires(t >= 0) __CPROVER_ensures(g_day_base >= -86400 && g_day_base <= t && t - g_day_base < 86400 && RET == (uint32_t)(t - g_day_base));
-static inline void LIBC_breakdown(time_t const* t, struct tm* d) { uint32_t sod = BD_second_of_day(*t); d->tm_hour = (int)(sod / 3600u); d->tm_min = (int)((sod % 3600u) / 60u); d->tm_sec = (int)(sod % 60u); }
-static inline time_t LIBC_assemble(struct tm* d) { return g_day_base + (time_t)d->tm_hour * 3600 + (time_t)d->tm_min * 60 + (time_t)d->tm_sec; }
+#define MDAY0 15   /* the day of the month of the start instant: any value, the model is linear in it */
+static inline void LIBC_breakdown(time_t const* t, struct tm* d) { uint32_t sod = BD_second_of_day(*t); d->tm_mday = MDAY0; d->tm_isdst = 0; d->tm_hour = (int)(sod / 3600u); d->tm_min = (int)((sod % 3600u) / 60u); d->tm_sec = (int)(sod % 60u); }
+static inline time_t LIBC_assemble(struct tm* d) { return g_day_base + (time_t)(d->tm_mday - MDAY0) * 86400 + (time_t)d->tm_hour * 3600 + (time_t)d->tm_min * 60 + (time_t)d->tm_sec; }
 #define SOD_NOW ((uint32_t)(g_now - g_day_base))
 #define DAILY_T(c) (g_day_base + (time_t)(c)->daily_h * 3600 + (time_t)(c)->daily_m * 60)
 '''
@@ -205,7 +214,7 @@ __CPROVER_ensures(config_p->freq == RF_Hourly ==> (g_ret_s == (uint64_t)(g_day_b
 __CPROVER_ensures(config_p->freq == RF_Daily ==> (g_ret_s == (uint64_t)(DAILY_T(config_p) > g_now ? DAILY_T(config_p) : DAILY_T(config_p) + 86400) && RET == g_ret_ns)) /*@ C15 "daily: the first rotation point is the next occurrence of the configured HH:MM strictly after the start instant" */
 ''')],
     harness='  uint64_t t; ICfg* c; RS_initial_tp(t, c);',
-    dropped=['std::chrono types as int64 seconds / nanoseconds', 'struct tm fields other than tm_hour/tm_min/tm_sec (the date fields pass through libc unchanged)', 'class template parameter'],
+    dropped=['std::chrono types as int64 seconds / nanoseconds', 'struct tm fields other than tm_mday/tm_hour/tm_min/tm_sec (month and year pass through libc unchanged; tm_isdst = -1 is what makes the real mktime right across a DST switch: covered by the native unit RS.time_files, not by this linear model)', 'class template parameter'],
     trusted=['libc gmtime_r/localtime_r/timegm/mktime by the linear model LIBC_breakdown/LIBC_assemble (AXIOM: constant zone offset over the 48 h after local midnight; not true on DST-switch days)',
              '64-bit division by 10^9 by its defining property (DIV_1E9)'],
     min_obligations=10)
